@@ -599,12 +599,20 @@ func (prog Progress) walk_transform_iterateMap(n datamodel.Node, s selector.Sele
 		return nil, err
 	}
 
-	for itr := selector.NewSegmentIterator(n); !itr.Done(); {
-		ps, v, err := itr.Next()
+	for itr := n.MapIterator(); !itr.Done(); {
+		k, v, err := itr.Next()
 		if err != nil {
 			return nil, err
 		}
-		if err := mapBldr.AssembleKey().AssignString(ps.String()); err != nil {
+		if v.IsAbsent() {
+			continue // an optional field of a typed struct that is not there: nothing to copy
+		}
+		// The key goes into the new map as the node it is: the key of a typed map may have a
+		// representation string that differs from its type-level form (an enum member with its own
+		// representation string, a struct with a stringjoin representation), and the path segment
+		// that names the entry is that representation.
+		ps := asPathSegment(k)
+		if err := mapBldr.AssembleKey().AssignNode(k); err != nil {
 			return nil, err
 		}
 
